@@ -26,10 +26,29 @@ Leaf(d, off, fill) ==
   LET A == FillArr(d, off) IN
   [k |-> "actual", d |-> d, fill |-> fill, mem |-> A.val,
    cells |-> [i \in 1..Total3(d) |-> <<CoordsOf(Total3(d) - i, d), A.val[Total3(d) - i + 1]>>]]
-LeafArr(l) == [size |-> l.d, val |-> l.mem]
 
+\* coordinates OUTSIDE the size of an adaptor (and inside, for good measure): the window -2 .. size+1 per
+\* axis - every sign combination - restricted to the coordinates the definitions give a meaning
+\* (DefinedE: a shift must not be handed a negative sum), plus coordinates near +-2^31 where no adaptor
+\* on the way does arithmetic on them
+FarCoords == {-Big, Big} \X {-Big, 0, Big} \X {-Big, -1, 1, Big}
+OutProbes(e) == SetToSeq({c \in Around(SizeE(e), 2) : DefinedE(e, c)} \cup (IF NoArithmeticE(e) THEN FarCoords ELSE {}))
+\* getValueRange over regions that start below 0 / end beyond the size: the corner below, the corner
+\* above, and one slab per axis reaching from -2 to 1; kept only if every cell is defined
+OutRegionCandidates(d) ==
+  << <<<<-2, -2, -2>>, <<1, 1, 1>>>>, <<<<d[1] - 1, d[2] - 1, d[3] - 1>>, <<d[1] + 2, d[2] + 2, d[3] + 2>>>>,
+     <<<<-2, 0, 0>>, <<1, d[2], d[3]>>>>, <<<<0, -2, 0>>, <<d[1], 1, d[3]>>>>, <<<<0, 0, -2>>, <<d[1], d[2], 1>>>>,
+     <<<<0, 0, d[3] - 1>>, <<d[1], d[2], d[3] + 2>>>> >>
+OutRegions(e) == SelectSeq(OutRegionCandidates(SizeE(e)), LAMBDA b : RegionDefinedE(e, b[1], b[2]))
 ViewExp(V) == [vsize |-> V.size, vn |-> NumElements(V), table |-> V.val, vrange |-> RangeAll(V)]
-ViewCase(cls, e, V) == [a |-> "View", cls |-> cls, arg |-> [e |-> e], exp |-> ViewExp(V)]
+
+\* arg / exp records of a case (P, R evaluated once)
+OutArgOf(e, P, R) == [e |-> e, probes |-> P, oregions |-> R]
+OutExpOf(e, P, R) == [outside |-> [i \in 1..Len(P) |-> GetE(e, P[i])],
+                      oranges |-> [i \in 1..Len(R) |-> RangeE(e, R[i][1], R[i][2])]]
+\* V is the table denotation computed with the View operators; TableE(e) = V is asserted below (Consistent)
+ViewCase(cls, e, V) == LET P == OutProbes(e)  R == OutRegions(e) IN
+                       [a |-> "View", cls |-> cls, arg |-> OutArgOf(e, P, R), exp |-> ViewExp(V) @@ OutExpOf(e, P, R)]
 Fills == {"set", "ext"}
 
 -------------------------------------------------------------------------------
@@ -48,18 +67,15 @@ ActualCase(d, fill) ==
 AllRegions(d) == SetToSeq({b \in (Coords3(Plus(d, <<1, 1, 1>>)) \X Coords3(Plus(d, <<1, 1, 1>>))) : RegionInside(d, b[1], b[2])})
 NonEmpty(d)   == SelectSeq(AllRegions(d), LAMBDA b : InsideBox(d, b[1], b[2]))
 EmptyOnes(d)  == SelectSeq(AllRegions(d), LAMBDA b : ~InsideBox(d, b[1], b[2]))
+\* ... followed by regions that start below 0 / end beyond the extent (get() clamps there)
 RangeCase(d, fill) ==
-  LET l == Leaf(d, 0, fill)  A == LeafArr(l)  R == NonEmpty(d) IN
-  [a |-> "Ranges", cls |-> "non-empty", arg |-> [e |-> l, regions |-> R],
-   exp |-> [ranges |-> [i \in 1..Len(R) |-> RangeOf(A, R[i][1], R[i][2])]]]
+  LET l == Leaf(d, 0, fill)  A == LeafArr(l)  R == NonEmpty(d)  O == OutRegionCandidates(d) IN
+  [a |-> "Ranges", cls |-> "non-empty", arg |-> [e |-> l, regions |-> R \o O],
+   exp |-> [ranges |-> [i \in 1..Len(R) |-> RangeOf(A, R[i][1], R[i][2])] \o [i \in 1..Len(O) |-> RangeE(l, O[i][1], O[i][2])]]]
 EmptyRangeCase(d) ==
   [a |-> "Ranges", cls |-> "empty", arg |-> [e |-> Leaf(d, 0, "set"), regions |-> EmptyOnes(d)], exp |-> [count |-> Len(EmptyOnes(d))]]
 
 -------------------------------------------------------------------------------
-ShiftE(s, e)      == [k |-> "shift", s |-> s, of |-> e]
-SubE(lo, hi, e)   == [k |-> "sub", lo |-> lo, hi |-> hi, of |-> e]
-AccE(t, e)        == [k |-> "acc", t |-> t, of |-> e]
-SlicesE(es)       == [k |-> "slices", of |-> es]
 
 ShiftCasesOf(d) == {ViewCase("shift", ShiftE(s, Leaf(d, 0, "set")), ShiftView(FillArr(d, 0), s)) : s \in Shifts(d, 1)}
 \* positive shifts beyond the extent are inside the claimed domain (where + size + shift >= 0)
@@ -78,8 +94,9 @@ SliceLeaves(d, n) == [j \in 1..n |-> Leaf(d, 40 * (j - 1), IF j % 2 = 1 THEN "se
 SliceCasesOf(d)  == {LET V == SliceView([j \in 1..n |-> LeafArr(SliceLeaves(d, n)[j])])
                          e == SlicesE(SliceLeaves(d, n)) IN
                      IF d[3] = 1 THEN ViewCase("slices", e, V)
-                     ELSE [a |-> "View", cls |-> "slices(thick)", arg |-> [e |-> e],
-                           exp |-> [vsize |-> V.size, vn |-> -1, table |-> V.val, vrange |-> RangeAll(V)]] : n \in 1..NSlices}
+                     ELSE LET P == OutProbes(e)  R == OutRegions(e) IN
+                          [a |-> "View", cls |-> "slices(thick)", arg |-> OutArgOf(e, P, R),
+                           exp |-> [vsize |-> V.size, vn |-> -1, table |-> V.val, vrange |-> RangeAll(V)] @@ OutExpOf(e, P, R)] : n \in 1..NSlices}
 
 \* compositions of two adaptors
 SmallShifts == {-1, 0, 1} \X {-1, 0, 1} \X {-1, 0, 1}
@@ -109,7 +126,9 @@ RepeatClampOf(d) == {[a |-> "View", cls |-> "repeat-as-clamp", arg |-> [e |-> Re
                       exp |-> [vsize |-> rs, table |-> ClampView(FillArr(d, 0), rs).val]] : rs \in RepeatSizes(d)}
 ASSUME \A d \in E3 : RepeatView(FillArr(d, 0), d) = FillArr(d, 0)
 
-Out(name, S) == ndJsonSerialize(IOEnv.OUT \o "-" \o name, SetToSeq(S))
+\* the general definition (GetE) agrees with the table operators inside the size, for every emitted case
+Consistent(S) == \A c \in S : (c.a = "View" /\ c.cls \notin {"repeat", "repeat-as-clamp"}) => TableE(c.arg.e).val = c.exp.table
+Out(name, S) == Consistent(S) /\ ndJsonSerialize(IOEnv.OUT \o "-" \o name, SetToSeq(S))
 
 ASSUME Out("actual", {ActualCase(d, f) : d \in E3, f \in Fills})
 ASSUME Out("ranges", {RangeCase(d, f) : d \in E3, f \in Fills})
